@@ -38,8 +38,8 @@ Proof.
   pose proof (zlen_nonneg p) as Hp. pose proof (zlen_nonneg t) as Ht.
   rewrite !zlen_app.
   destruct (Z.ltb_spec (zlen p + (zlen o + zlen t)) (zlen p)) as [H|_]; [lia|].
+  destruct (Z.ltb_spec (zlen p) 0) as [H|_]; [lia|]. cbn [orb].
   rewrite (eqb_empty_false n Hn), (eqb_empty_false o Ho).
-  destruct (Z.ltb_spec (zlen p) 0) as [H|_]; [lia|].
   destruct (Z.ltb_spec (zlen p + zlen o - 1) (zlen p + (zlen o + zlen t))) as [_|H]; [|lia].
   f_equal.
   replace (Z.to_nat (zlen p)) with (String.length p) by (rewrite zlen_length; lia).
